@@ -97,16 +97,20 @@ func NewBucket[V comparable](capacity int) *Bucket[V] {
 	}
 }
 
-// IsStale returns true if the latest item in the bucket is expired.
+// IsStale returns true if every item in the bucket is expired.
+// The last slot of the heap array is not necessarily the item with the latest
+// priority, so all items have to be checked.
 func (b *Bucket[V]) IsStale() (stale bool) {
 	b.mtx.Lock()
 	defer b.mtx.Unlock()
-	if b.items.Len() == 0 {
-		return true
-	}
 
-	latest := b.items[b.items.Len()-1]
-	return latest.expired(time.Now())
+	now := time.Now()
+	for _, item := range b.items {
+		if !item.expired(now) {
+			return false
+		}
+	}
+	return true
 }
 
 // Upsert tries to add a new value and its priority to the bucket.
